@@ -72,8 +72,18 @@ def mentions_slot(e, s):
     return any(norm(x) == s for x in walk(e))
 
 
+def outs_locs(f):
+    """where the (index, value) entries go: the stream's own list, or a `&mut Vec<IndexedValue>` parameter of a heap helper"""
+    o = {(1, 'outs')}
+    for i in range(1, f.arg_count + 1):
+        if 'Vec<raw::ops::IndexedValue' in f.local_ty(i):
+            o.add((i,))
+    return o
+
+
 def r05_1_4(ctx, name, f):
     R1, R4 = 'R05.1', 'R05.4'
+    OUTS = outs_locs(f)
     loops = f.loops()
     n = 0
     for p in explore(f, max_visits=1, havoc=True, limit=3000):
@@ -95,12 +105,17 @@ def r05_1_4(ctx, name, f):
                     v = p.sym.rvalue_at(st[3]['rv'], (st[0], st[1]))
                     if v[0] == 'agg' and v[1].endswith('Option::Some') and peel(v[2][0][1]) == s:
                         parks.append(st)
+            for c in calls:
+                # `self.cur_slot.insert(slot)` / `.replace(slot)` park the slot as well
+                if isinstance(c[2], str) and (c[2].endswith('Option::<T>::insert') or c[2].endswith('Option::<T>::replace')) and c[0] > k \
+                        and arg_loc(f, c[4], 0) == (1, 'cur_slot') and peel(c[3][1]) == s:
+                    parks.append(c)
             tot = len(refills) + len(parks)
             ctx.check(R1, tot == 1, '%s:%s-slot-returned' % (name, kind),
                       'a slot obtained by %s is given back %d times on a path (refilled %d, parked %d): a dropped slot silently ends that input stream, a duplicated one repeats it' % (kind, tot, len(refills), len(parks)),
                       fn=f, at=f.blocks[bid]['term'].get('span'))
             if name != 'difference' and kind != 'parked':
-                pushes = [c for c in calls if isinstance(c[2], str) and c[2].endswith('::push') and arg_loc(f, c[4], 0) == (1, 'outs') and c[0] > k]
+                pushes = [c for c in calls if isinstance(c[2], str) and c[2].endswith('::push') and arg_loc(f, c[4], 0) in OUTS and c[0] > k]
                 mine = [c for c in pushes if is_call(c[3][1], 'Slot::indexed_value') and peel(c[3][1][2][0]) == s]
                 ctx.check(R4, len(mine) == 1, '%s:%s-slot-reported' % (name, kind),
                           'the slot obtained by %s contributes %d (index, value) entries (exactly one, taken from that very slot, expected)' % (kind, len(mine)), fn=f, at=f.blocks[bid]['term'].get('span'))
@@ -108,19 +123,110 @@ def r05_1_4(ctx, name, f):
         ctx.undecided(R1, name + ':no-slots', 'no slot-taking path recognised', fn=f)
 
 
-def counter_local(f):
-    """the loop-carried usize counter of equal-key pops (if any)"""
+def counter_locals(f):
+    """loop-carried named usize / bool locals (candidates for the counter or parity of equal-key pops)"""
     c = []
     for h, targets in f.loop_havoc().items():
         for T, _ in targets:
-            if len(T) == 1 and f.local_ty(T[0]) == 'usize' and f.locals[T[0]].get('name'):
+            if len(T) == 1 and f.local_ty(T[0]) in ('usize', 'bool', 'u32', 'u64') and f.locals[T[0]].get('name'):
                 c.append(T[0])
     return sorted(set(c))
 
 
-def r05_2(ctx, name, f, pv, rdrs_field):
+def counter_facts(f):
+    """{counter local: (initial constant, step kind)} for locals that are initialised with ONE constant and whose value at the end of
+    every iteration that pops an equal-key slot is havoc+1 ('inc') / !havoc ('flip'); iterations without such a pop must not touch them"""
+    out = {}
+    for c in counter_locals(f):
+        inits = set()
+        for bid, b in f.blocks.items():
+            if b['cleanup']:
+                continue
+            for st in b['stmts']:
+                if st['k'] == 'assign' and not st['place']['proj'] and st['place']['local'] == c:
+                    rv = st['rv']
+                    if 'use' in rv and 'const' in rv['use']:
+                        inits.add(int(rv['use']['const']['scalar'], 16))
+        if len(inits) != 1:
+            continue
+        kinds = set()
+        for p in explore(f, max_visits=1, havoc=True, limit=3000):
+            if p.end != 'cut':
+                continue
+            v = p.sym.loc_value_at((c,), (len(p.blocks) - 2, 'T'))
+            if v[0] == 'havoc' and v[1] == (c,):
+                kinds.add('same' if not [x for x in obtained_slots(f, p) if x[2] == 'pop_if_equal'] else 'stale')
+                continue
+            popped = [x for x in obtained_slots(f, p) if x[2] == 'pop_if_equal']
+            if v[0] == 'bin' and v[1] == 'Add' and v[2][0] == 'havoc' and v[2][1] == (c,) and v[3] == ('const', 1) and len(popped) == 1:
+                kinds.add('inc')
+            elif v[0] == 'un' and v[1] == 'Not' and v[2][0] == 'havoc' and v[2][1] == (c,) and len(popped) == 1 and f.local_ty(c) == 'bool':
+                kinds.add('flip')
+            elif v[0] in ('const',) and v[1] in inits:
+                kinds.add('same')      # outer-loop iteration re-initialising the counter
+            else:
+                kinds.add('other:' + fmt(v)[:60])
+        kinds.discard('same')
+        if len(kinds) == 1 and list(kinds)[0] in ('inc', 'flip'):
+            out[c] = (list(inits)[0], list(kinds)[0])
+        else:
+            out[c] = (list(inits)[0], 'bad:' + ','.join(sorted(kinds)))
+    return out
+
+
+def drain_helpers(lib, f, depth=0):
+    """local helper functions (not the primitive takers) called by f that obtain slots themselves"""
+    out = []
+    for bid, t in f.calls():
+        c = f.callee(t)
+        g = lib.fns.get(c)
+        if g is None or c in TAKERS or c == HEAP + '::refill' or not c.startswith('raw::ops::') or g is f:
+            continue
+        if any((g.callee(t2) or '') in TAKERS for _, t2 in g.calls()) and g not in out:
+            out.append(g)
+    return out
+
+
+def helper_summary(ctx, g):
+    """a helper `fn(&mut heap, key, outs) -> count`: the returned value is init + (number of equal-key pops); None if it returns no count"""
+    cf = counter_facts(g)
+    base = None
+    for p in explore(g, max_visits=1, havoc=True, limit=3000):
+        if p.end != 'return':
+            continue
+        rv = p.ret()
+        while rv[0] == 'cast':
+            rv = rv[1]
+        if rv[0] == 'havoc' and len(rv[1]) == 1 and rv[1][0] in cf and cf[rv[1][0]][1] == 'inc':
+            b = cf[rv[1][0]][0]
+            base = b if base in (None, b) else 'mixed'
+        elif rv[0] == 'tuple' and not rv[1]:
+            pass
+        else:
+            return None
+    return base if isinstance(base, int) else None
+
+
+def count_base(e, cf, summaries):
+    """e = base + (number of equal-key pops for the candidate key) -> (base, kind), else None"""
+    while e[0] == 'cast':
+        e = e[1]
+    if e[0] == 'havoc' and len(e[1]) == 1 and e[1][0] in cf and cf[e[1][0]][1] in ('inc', 'flip'):
+        return cf[e[1][0]]
+    if e[0] == 'call' and e[1] in summaries and summaries[e[1]] is not None:
+        return (summaries[e[1]], 'inc')
+    if e[0] == 'bin' and e[1] == 'Add':
+        for a, b in ((e[2], e[3]), (e[3], e[2])):
+            if b[0] == 'const':
+                r = count_base(a, cf, summaries)
+                if r is not None and r[1] == 'inc':
+                    return (r[0] + b[1], 'inc')
+    return None
+
+
+def r05_2(ctx, name, f, pv, rdrs_field, summaries):
     R = 'R05.2'
-    cl = counter_local(f)
+    cf = counter_facts(f)
     emits = []
     for p in explore(f, max_visits=1, havoc=True, limit=3000):
         if p.end == 'return':
@@ -130,9 +236,13 @@ def r05_2(ctx, name, f, pv, rdrs_field):
     if not emits:
         ctx.undecided(R, name + ':emit', 'no emitting path', fn=f)
         return
+
+    def counting(e):
+        return [x for x in walk(e) if count_base(x, cf, summaries) is not None]
+
     if name == 'union':
-        bad = [d for p in emits for d in p.decisions if cl and any(x[0] == 'havoc' and x[1] == (cl[0],) for x in walk(d[2]))]
-        ctx.check(R, not bad and not cl, 'union:always', 'union must emit every popped key unconditionally', fn=f)
+        bad = [d for p in emits for d in p.decisions if counting(d[2])]
+        ctx.check(R, not bad, 'union:always', 'union must emit every popped key unconditionally', fn=f)
         return
     if name == 'difference':
         # emits iff no other stream holds the key: flag initialised true, cleared on equality
@@ -142,52 +252,34 @@ def r05_2(ctx, name, f, pv, rdrs_field):
             ok = ok or all((is_call(d[2], '::eq') and d[3] == 0) or (is_call(d[2], '::ne') and d[3] == 1) for d in eqs)
         ctx.check(R, ok, 'difference:unique', 'difference must emit a key of the first stream iff no drained slot of the other streams equals it', fn=f)
         return
-    if len(cl) != 1:
-        ctx.undecided(R, name + ':counter', 'cannot identify the counter of equal-key pops (%s)' % cl, fn=f)
-        return
-    c = cl[0]
-    # initial value and increment
-    inits = set()
-    incs = set()
-    for bid, b in f.blocks.items():
-        if b['cleanup']:
-            continue
-        for i, st in enumerate(b['stmts']):
-            if st['k'] == 'assign' and not st['place']['proj'] and st['place']['local'] == c:
-                rv = st['rv']
-                if 'use' in rv and 'const' in rv['use']:
-                    inits.add(int(rv['use']['const']['scalar'], 16))
-                else:
-                    incs.add(str(rv)[:200])
-    ctx.check(R, inits == {1}, name + ':counter-init', 'the counter of streams holding the candidate key must start at 1 (the slot just popped): %s' % sorted(inits), fn=f)
-    inc_ok = False
-    for p in explore(f, max_visits=1, havoc=True, limit=3000):
-        if p.end != 'cut':
-            continue
-        sl = [s for s in obtained_slots(f, p) if s[2] == 'pop_if_equal']
-        if not sl:
-            continue
-        v = p.sym.loc_value_at((c,), (len(p.blocks) - 2, 'T'))
-        good = v[0] == 'bin' and v[1] == 'Add' and v[2][0] == 'havoc' and v[2][1] == (c,) and v[3] == ('const', 1)
-        inc_ok = inc_ok or good
-        ctx.check(R, good, name + ':counter-step', 'each equal-key pop must add exactly 1 to the counter: %s' % fmt(v)[:80], fn=f)
-    if not inc_ok:
-        ctx.undecided(R, name + ':counter-step', 'no equal-key pop iteration recognised', fn=f)
+    for c, (init, kind) in sorted(cf.items()):
+        if kind.startswith('bad:'):
+            ctx.violation(R, name + ':counter-step', 'each equal-key pop must add exactly 1 to the counter (or flip the parity flag) and nothing else may change it: %s' % kind[4:], fn=f)
     for p in emits:
-        ds = [d for d in p.decisions if any(x[0] == 'havoc' and x[1] == (c,) for x in walk(d[2]))]
+        ds = [d for d in p.decisions if counting(d[2])]
         if not ds:
+            if any(k.startswith('bad:') for _, k in cf.values()):
+                continue
             ctx.violation(R, name + ':emit-predicate', 'a key is emitted without consulting the number of streams that hold it', fn=f)
             continue
         e, val = pv.inline(ds[-1][2]), ds[-1][3]
+        while e[0] == 'cast':
+            e = e[1]
+        if e[0] == 'un' and e[1] == 'Not':
+            e, val = e[2], 1 - val
         if name == 'intersection':
             ok = False
             if e[0] == 'bin' and e[1] in ('Lt', 'Ge', 'Eq', 'Ne', 'Gt', 'Le'):
                 a, b = e[2], e[3]
-                cnt_left = a[0] == 'havoc'
+                ca, cb = count_base(a, cf, summaries), count_base(b, cf, summaries)
+                cnt_left = ca is not None
+                cnt = ca or cb
                 other = b if cnt_left else a
                 is_k = is_call(other, 'Vec::<T, A>::len') and other[2][0][0] == 'field' and other[2][0][2] == rdrs_field
                 op = e[1] if cnt_left else {'Lt': 'Gt', 'Gt': 'Lt', 'Le': 'Ge', 'Ge': 'Le', 'Eq': 'Eq', 'Ne': 'Ne'}[e[1]]
                 holds = (op == 'Lt' and val == 0) or (op == 'Ge' and val == 1) or (op == 'Eq' and val == 1) or (op == 'Ne' and val == 0)
+                ctx.check(R, cnt is not None and cnt == (1, 'inc'), name + ':counter-init',
+                          'the number of streams holding the candidate key must count the slot just popped (1) plus one per equal-key pop: found base %s' % (cnt,), fn=f)
                 ok = is_k and holds
                 ctx.check(R, ok, 'intersection:emit-predicate',
                           'intersection must emit iff the key was popped from ALL input streams, i.e. counter = number of input streams (exhausted ones included); found: counter %s %s is %s' % (op, fmt(other)[:80], bool(val)),
@@ -196,14 +288,55 @@ def r05_2(ctx, name, f, pv, rdrs_field):
                 ctx.undecided(R, 'intersection:emit-predicate', 'emit condition %s is not a comparison of the counter' % fmt(e)[:100], fn=f)
         else:
             ok = False
-            if e[0] == 'bin' and e[1] in ('Eq', 'Ne') and e[2][0] == 'bin' and e[2][1] in ('Rem', 'BitAnd') and e[2][2][0] == 'havoc' and e[2][3] in (('const', 2), ('const', 1)) and e[3][0] == 'const':
-                modv = 2 if e[2][1] == 'Rem' else 2
+            cb = count_base(e, cf, summaries)
+            if cb is not None and cb[1] == 'flip':
+                # parity flag: starts as "1 pop is odd" (true) and flips per further pop
+                init = cb[0]
+                ok = (init == 1 and val == 1) or (init == 0 and val == 0)
+                ctx.check(R, True, name + ':counter-init', 'parity flag', fn=f)
+            elif e[0] == 'bin' and e[1] in ('Eq', 'Ne') and e[2][0] == 'bin' and e[2][1] in ('Rem', 'BitAnd') and e[2][3] in (('const', 2), ('const', 1)) and e[3][0] == 'const':
+                cnt = count_base(e[2][2], cf, summaries)
+                ctx.check(R, cnt == (1, 'inc'), name + ':counter-init',
+                          'the number of streams holding the candidate key must count the slot just popped (1) plus one per equal-key pop: found base %s' % (cnt,), fn=f)
                 is_zero_cmp = e[3][1] == 0
                 truth = (e[1] == 'Eq') == bool(val)        # the relation "x % 2 == c" holds
                 odd = (truth and not is_zero_cmp) or (not truth and is_zero_cmp)
                 consistent = (e[2][1] == 'Rem' and e[2][3] == ('const', 2)) or (e[2][1] == 'BitAnd' and e[2][3] == ('const', 1))
-                ok = odd and consistent
+                ok = odd and consistent and cnt is not None
             ctx.check(R, ok, 'symmetric_difference:emit-predicate', 'symmetric difference must emit iff the key is held by an ODD number of streams: %s is %s' % (fmt(e)[:80], bool(val)), fn=f)
+
+
+def r05_key(ctx, name, f):
+    """equal-key pops (and helpers that perform them) are asked about the key of the slot just popped"""
+    R = 'R05.1'
+    lib = ctx.lib
+    if name == 'difference':
+        return
+    helpers = {g.path for g in drain_helpers(lib, f)}
+    for p in explore(f, max_visits=1, havoc=True, limit=3000):
+        slots = [x for x in obtained_slots(f, p) if x[2] == 'pop']
+        for (k, bid, callee, args, t) in path_calls(p):
+            if callee == HEAP + '::pop_if_equal' or callee in helpers:
+                keyargs = [a for a in args[1:] if is_call(peel(a), 'Slot::input') or peel(a)[0] == 'param' or is_call(a, 'Slot::input')]
+                key = args[1] if len(args) > 1 else None
+                if key is None:
+                    continue
+                kk = norm(key)
+                if kk[0] == 'param' and f.path not in OPS.values():
+                    ok = True        # a helper's key parameter: bound at the call site in the stream, checked there
+                elif is_call(kk, 'Slot::input'):
+                    src = peel(kk[2][0])
+                    ok = bool(slots) and any(src == s[3] and s[0] < k for s in slots)
+                else:
+                    ok = False
+                if callee in helpers:
+                    g = lib.fns[callee]
+                    for i in range(1, g.arg_count + 1):
+                        if (i,) in outs_locs(g):
+                            ctx.check('R05.4', arg_loc(f, t, i - 1) in outs_locs(f), name + ':helper-outs', 'the helper must append its entries to the entry list of this stream', fn=f, at=t.get('span'))
+                ctx.check(R, ok, name + ':equal-key-is-candidate', 'the heap is asked for further slots equal to %s, which is not the key of the slot just popped' % fmt(kk)[:80], fn=f, at=t.get('span'))
+        if slots:
+            pass
 
 
 def r05_2_k(ctx, pv):
@@ -437,13 +570,24 @@ def run(ctx):
     ctx.rule('R05.2', 'emit predicates: intersection iff counter = number of input streams; symmetric difference iff odd; union always; counter starts at 1, +1 per equal-key pop', floor=8)
     ctx.rule('R05.4', 'outs discipline: cleared once per candidate key, one (index, value) entry per popped slot taken from that slot', floor=8)
     rf = r05_2_k(ctx, pv)
+    summaries = {}
+    for name, path in OPS.items():
+        f = lib.fn(path)
+        if f is None:
+            continue
+        for g in drain_helpers(lib, f):
+            if g.path not in summaries:
+                summaries[g.path] = helper_summary(ctx, g)
+                r05_1_4(ctx, 'helper:' + g.path.rsplit('::', 1)[-1], g)
+                r05_key(ctx, 'helper:' + g.path.rsplit('::', 1)[-1], g)
     for name, path in OPS.items():
         f = lib.fn(path)
         if f is None:
             ctx.missing('R05.1', 'anchor:' + name, '%s stream not found' % name)
             continue
         r05_1_4(ctx, name, f)
-        r05_2(ctx, name, f, pv, rf)
+        r05_key(ctx, name, f)
+        r05_2(ctx, name, f, pv, rf, summaries)
         if name != 'difference':
             r05_4_clear(ctx, name, f)
     r05_4_difference(ctx)
